@@ -1595,7 +1595,8 @@ Tokenizer_handle_tag_close_close(Tokenizer *self)
             break;
         case 1: {
             so = strip_tag_name(first, 1);
-            sc = strip_tag_name(Tokenizer_tag_name_token(self), 1);
+            // (Not with an exception already set: the second lookup would lose it.)
+            sc = so ? strip_tag_name(Tokenizer_tag_name_token(self), 1) : NULL;
             if (so && sc) {
                 if (PyUnicode_Compare(so, sc)) {
                     valid = 0;
